@@ -951,6 +951,16 @@ impl<'lexer> Lexer<'lexer> {
     while let Some(ch) = self.char_at(offset) {
       if chars.contains(&ch) {
         return true;
+      } else if ch == '/' && self.char_at(offset + 1) == Some('*') {
+        offset += 2;
+        while self.char_at(offset).is_some() && !(self.char_at(offset) == Some('*') && self.char_at(offset + 1) == Some('/')) {
+          offset += 1;
+        }
+        offset += 1;
+      } else if ch == '/' && self.char_at(offset + 1) == Some('/') {
+        while self.char_at(offset).is_some() && self.char_at(offset) != Some('\n') {
+          offset += 1;
+        }
       } else if !is_whitespace(ch) {
         return false;
       }
